@@ -312,9 +312,11 @@ def gen_collider_calls(rng, n, tier):
     for _ in range(n):
         sc = c12.gen_scene(rng, tier)
         sc["dirs"] = [gen_dir(rng) for _ in range(2)]
-        ops = [o for o in c12.scene_ops(sc) if o.get("tag") != "mpr_fine"]
+        # no SIGALRM inside the worker (timeout 0): an alarm that fires while numba compiles (cold cache) leaves the
+        # dispatcher unusable and is not a verdict; hangs are the monitor's business (budget of the whole call)
+        ops = [dict(o, timeout=0) for o in c12.scene_ops(sc) if o.get("tag") != "mpr_fine"]
         out.append(dict(k="collider", c1=sc["c1"], c2=sc["c2"], ops=ops, same_object=bool(sc["meta"].get("same_object")),
-                        L=sc["meta"]["L"], meta=sc["meta"], budget=120.0))
+                        L=sc["meta"]["L"], meta=sc["meta"], budget=600.0))
     return out
 
 
@@ -390,7 +392,8 @@ def gen_foreign_calls(rng, tier, notes):
 # multiplicity / order legitimately depends on 1-ulp differences for degenerate pairs; the public outputs computed from them
 # (intersection flag, plane, area, force, centre of pressure) are compared strictly.  Soft mismatches are counted.
 IGNORE_KEYS = {"ref"}
-SOFT_KEYS = {"pts", "ordered", "perm", "uniq", "hps", "poly3d", "poly"}
+SOFT_KEYS = {"pts", "ordered", "perm", "uniq", "hps", "poly3d", "poly",            # c15: stages of one tetrahedron pair
+             "details", "order1", "order2", "pairs_tree_ordered", "tris"}          # c16: argsort-tie dependent orders, per-contact stages
 SOFT_HITS = []
 
 
